@@ -3,6 +3,7 @@ package props
 import (
 	"fmt"
 	"runtime"
+	"strings"
 	"testing"
 	"unsafe"
 
@@ -880,6 +881,11 @@ func (c *C19Case) Run() string {
 			}
 		})
 		w.desc = append(w.desc, note)
+		if note == st.Op || strings.Contains(note, "skipped") {
+			rec.Class("step-skipped:" + st.Op)
+		} else {
+			rec.Class("step:" + st.Op)
+		}
 		if pan != "" {
 			return fmt.Sprintf("step %d %s panicked: %s; %s", si, note, pan, hist())
 		}
